@@ -57,8 +57,9 @@ TRUSTED = [
     "tools/gen/c09_stats.py gen_xml_sites (localnetworkxml.cpp -> Gama/Gen/StatsXmlSites.lean; uses tools/gen/c12_sites.py "
     "parse_sites for the operand sites, resolves local variables textually by the nearest preceding definition in the writer "
     "function, `*= sc` is the only accepted modification) and the hand tables Stats.Xml.classifyTable / expected of "
-    "Lemmas/StatsXml.lean (accessor expression -> formula, tag -> formula); validated end to end by the XML oracle, which "
-    "recomputes every such field from the other fields",
+    "Lemmas/StatsXml.lean (accessor expression -> formula, tag -> formula) and its hand-written evaluator Stats.Xml.value (the "
+    "StatsGen formula of each tag on NetAnswer's accessors; what C09_xml_statistics_are_model_statistics is about - not a "
+    "regenerated writer); validated end to end by the XML oracle, which recomputes every such field from the other fields",
 ]
 MODELLED = [
     "values of GNU_gama::Normal / Student: the driver is given their values at the argument the code must use; in the "
@@ -101,14 +102,25 @@ LEVEL_TEXT = ("Lean 4 theorems over the reals about every statistic formula of L
               "Correlated clusters (finding C09-F1/C07-F2) are quantified: the coded sigma_L^2 = m0^2 B_nn C_nn equals the variance "
               "m0^2 (L B L')_nn of the adjusted observation for every hat matrix iff row n of the cluster's Cholesky factor is diagonal "
               "(iff the observation is uncorrelated with its predecessors), and |difference| <= m0^2 (2 l_nn sqrt(B_nn R) + R), R = squared "
-              "norm of the strictly lower part of that row (Props/C09Correlated.lean, also at netSolve level).")
+              "norm of the strictly lower part of that row (Props/C09Correlated.lean, also at netSolve level). "
+              "Round 8: at LocalNetwork level the solver premise is ONE input-side hypothesis (InputGap: thresholds + RankGap for "
+              "envelope/cholesky/gso, SingGap for svd) in C09_stdev_of_net_gap / C09_net_sigma_apr_scaling_gap, the side conditions "
+              "0 <= [pvv] and stdDev() > 0 are derived (C09_net_side_conditions; 0 < m_0_apr stays), and C09_stdev_of_net / "
+              "C09_net_sigma_apr_scaling are applied over R to a correlated network with every hypothesis discharged "
+              "(Props/C09NetWitness.lean: envelope vs cholesky on the scaled network).")
 LEVEL_NOTE = ("Not covered by the theorems: the values of the Normal/Student quantiles beyond what C17 proves, IEEE rounding; "
               "the solver facts are cited from C01/C03/C20 under their hypotheses (svd: the factors Svd.decompose returns with unambiguous singular values - no certificate; "
               "convergence of its QR iteration is not proved). The absolute pivot tolerances of the envelope / cholesky kernels "
               "break the sigma-apr invariance on the real code for extreme weights: known finding C09-F2. sigma_L of observations in clusters with a non-diagonal "
               "covariance matrix uses the uncorrelated formula in the C++ (characterised and bounded in Props/C09Correlated.lean; known finding C09-F1). "
               "The guards under which <std-residual> (f >= 0.1) and <err-obs>/<err-adj> (bandWidth() == 0 and f >= 5 or outlying) are printed, "
-              "and the chi-square bounds <lower>/<upper>, are not in the table.")
+              "and the chi-square bounds <lower>/<upper>, are not in the table. The correlated bound is two-sided (no one-sided "
+              "inequality holds) and not shown attained; at netSolve level it is stated for every lower factor L with L L' = C, the "
+              "identification of m0^2 (L B L')_kk with the variance of the adjusted observation is the generic identity "
+              "C09_adjusted_obs_cofactor (L Ad = A), not instantiated with the factor prepareProjectEquations computes. In the "
+              "sigma-apr theorem each run's solver premise is asked separately (not scale invariant under absolute tolerances). "
+              "hdim / RowsOK of the network theorems are not discharged from project_equations inside C09; no svd instance at "
+              "network level.")
 TECHNIQUE = "Lean 4 proof (real analysis: Complex.arg half-angle, sqrt) + source-to-Lean translator + correspondence + XML oracle"
 
 ALGS = ["gso", "svd", "cholesky", "envelope"]
